@@ -190,6 +190,64 @@ Section Geom.
     assert ((st * 64 / TF + 1) * THUGE <= ntab g fr * THUGE) by (apply N.mul_le_mono_r; assumption). lia.
   Qed.
 
+  (* ----- huge orders: groups of entries ----- *)
+  Lemma huge_call_aligned_geom fr c : cwf g fr c = true -> (hord g <= c_order c)%nat -> is_get c = false ->
+    c_frame c = c_huge g c * HF /\ c_n c = c_hnum g c * HF.
+  Proof.
+    intros Hc Hk Hg. unfold c_n, c_hnum. rewrite (pow2_split (hord g) (c_order c) Hk), <- HF_pow2. split; [|reflexivity].
+    assert (Hal : c_frame c mod pow2 (c_order c) = 0) by (unfold cwf in Hc; destruct c; try discriminate; cbn [c_frame c_order] in *; lia).
+    rewrite (pow2_split (hord g) (c_order c) Hk), <- HF_pow2 in Hal.
+    pose proof (HF_pos g). pose proof (pow2_nz (c_order c - hord g)).
+    pose proof (mod_of_multiple (c_frame c) HF (pow2 (c_order c - hord g)) ltac:(lia) ltac:(lia)) as M.
+    rewrite (N.mul_comm HF) in M. specialize (M Hal). unfold c_huge. pose proof (N.div_mod (c_frame c) HF ltac:(lia)). lia.
+  Qed.
+  Lemma le_nbf fr X : X * HF <= fr -> X <= nbf g fr.
+  Proof.
+    intros H. pose proof (HF_pos g) as P. destruct (div_ceil_spec fr HF ltac:(lia)) as [H1 _]. unfold nbf.
+    apply (N.mul_le_mono_pos_r _ _ HF P). lia.
+  Qed.
+  Lemma hnum_divides c : (hord g <= c_order c)%nat -> (c_order c <= tord g)%nat ->
+    THUGE = pow2 (tlog g - (c_order c - hord g)) * c_hnum g c.
+  Proof. intros H1 H2. unfold c_hnum, tord in *. rewrite THUGE_pow2. apply pow2_split. lia. Qed.
+
+  Lemma huge_group fr c gi : cwf g fr c = true -> (hord g <= c_order c)%nat ->
+    group_h g c gi + c_hnum g c <= ntab g fr * THUGE /\ (group_h g c gi * HF) mod pow2 (c_order c) = 0.
+  Proof.
+    intros Hc Hk. pose proof (HF_pos g) as PH. pose proof (THUGE_pos g) as PT.
+    assert (Hn : c_hnum g c <> 0) by apply pow2_nz.
+    assert (Ek : pow2 (c_order c) = c_hnum g c * HF) by (unfold c_hnum; rewrite HF_pow2; apply pow2_split; exact Hk).
+    assert (Hto : (c_order c <= tord g)%nat) by (unfold cwf in Hc; lia).
+    pose proof (hnum_divides c Hk Hto) as ET. set (m := pow2 (tlog g - (c_order c - hord g))) in *.
+    assert (Hm : m <> 0) by apply pow2_nz.
+    destruct c as [st o|f o|f o]; cbn [group_h].
+    - (* get: the group lies in the tree of the hint *)
+      assert (Htree : st * 64 / TF < ntab g fr) by (unfold cwf in Hc; lia).
+      set (c := CGet st o) in *.
+      set (A := c_choff g c / c_hnum g c).
+      assert (EX : (A * c_hnum g c + gi * c_hnum g c) mod THUGE = c_hnum g c * ((A + gi) mod m)).
+      { rewrite ET. replace (A * c_hnum g c + gi * c_hnum g c) with (c_hnum g c * (A + gi)) by lia.
+        rewrite (N.mul_comm m). apply mod_mul_l; assumption. }
+      rewrite EX. pose proof (N.mod_lt (A + gi) m Hm) as Hlt.
+      assert (Hfit : c_hnum g c * ((A + gi) mod m) + c_hnum g c <= THUGE) by (rewrite ET; nia).
+      unfold c_tbase. subst c. cbn [c_frame]. split.
+      + assert (st * 64 / TF + 1 <= ntab g fr) by lia.
+        assert ((st * 64 / TF + 1) * THUGE <= ntab g fr * THUGE) by (apply N.mul_le_mono_r; assumption). lia.
+      + rewrite Ek, ET.
+        replace ((st * 64 / TF * (m * c_hnum g (CGet st o)) + c_hnum g (CGet st o) * ((A + gi) mod m)) * HF)
+          with ((st * 64 / TF * m + (A + gi) mod m) * (c_hnum g (CGet st o) * HF)) by lia.
+        apply N.mod_mul. nia.
+    - destruct (huge_call_aligned_geom fr (CGetAt f o) Hc Hk eq_refl) as [E1 E2].
+      assert (Hr : f mod pow2 o = 0 /\ f + pow2 o <= fr) by (unfold cwf in Hc; lia).
+      unfold c_n in E2. cbn [c_frame c_order] in *. split.
+      + etransitivity; [|apply nbf_le_ents]. apply le_nbf. lia.
+      + rewrite <- E1. lia.
+    - destruct (huge_call_aligned_geom fr (CPut f o) Hc Hk eq_refl) as [E1 E2].
+      assert (Hr : f mod pow2 o = 0 /\ f + pow2 o <= fr) by (unfold cwf in Hc; lia).
+      unfold c_n in E2. cbn [c_frame c_order] in *. split.
+      + etransitivity; [|apply nbf_le_ents]. apply le_nbf. lia.
+      + rewrite <- E1. lia.
+  Qed.
+
   Lemma local_gwf fr x : local_b g fr x = true -> gwf (ghost_of g x).
   Proof.
     pose proof (ROWS_pos g wf) as PR.
